@@ -31,7 +31,9 @@ THash == /\ IsEvent("hash") /\ Keep
 \* same pattern computed by the JDK
 THashBig == IsEvent("hashbig") /\ Keep /\ B(Ev.digest) = DigestOfPattern(Ev.alg, Ev.len) /\ Ev.zero
 THmac == /\ IsEvent("hmac") /\ Keep
-         /\ LET d == H!Hmac(Ev.alg, B(Ev.key), B(Ev.msg)) IN B(Ev.digest) = d /\ B(Ev.oneshot) = d /\ Ev.zero
+         /\ LET d == H!Hmac(Ev.alg, B(Ev.key), B(Ev.msg)) IN
+            /\ B(Ev.digest) = d /\ B(Ev.oneshot) = d /\ Ev.zero
+            /\ B(Ev.overmsg) = d /\ B(Ev.overkey) = d             \* also when the digest is written over the message or over the key
 TPbkdf2 == IsEvent("pbkdf2") /\ Keep /\ B(Ev.out) = H!Pbkdf2(B(Ev.pass), B(Ev.salt), Ev.c, Ev.dklen)
 TCrc == IsEvent("crc") /\ Keep /\ H!CrcOK(B(Ev.msg), B(Ev.out))
 \* C02
